@@ -10,6 +10,9 @@ class G:
         self.n = 0
         self.lines = []
         self.env = {}          # var -> type string
+        self.common = False    # C18: only what the real DSL supports too (no unary minus on Nada values, no value= keyword)
+        self.decl_parties = []
+        self.decl_inputs = []
 
     def fresh(self, p="v"):
         self.n += 1
@@ -61,7 +64,7 @@ class G:
                 if r.random() < 0.5:
                     a, b = b, a
                 return f"({a} {r.choice('+-*')} {b})"
-            if c < 0.65:
+            if c < 0.65 and not self.common:
                 a = self.expr(t, depth + 1)
                 return f"(-{a})" if a else None
             if c < 0.85:
@@ -81,8 +84,9 @@ class G:
             return self.expr(t, depth + 1)
         return None
 
-    def program(self, ill_typed=False, literals=False):
+    def program(self, ill_typed=False, literals=False, common=False):
         r = self.r
+        self.common = common
         L = ["from nada_dsl import *", ""]
         # helpers
         for _ in range(r.choice([0, 1, 2])):
@@ -104,12 +108,24 @@ class G:
         B = []
         B.append('p1 = Party(name="P1")'); self.env["p1"] = "Party"
         B.append('p2 = Party("P2")'); self.env["p2"] = "Party"
-        for i in range(r.choice([2, 3, 4])):
+        pvars = ["p1", "p2"]
+        if common:
+            for k in range(3, 3 + r.choice([0, 0, 1, 2])):
+                B.append(f'p{k} = Party(name="P{k}")'); self.env[f"p{k}"] = "Party"; pvars.append(f"p{k}")
+            if r.random() < 0.3:
+                r.shuffle(B)
+        self.decl_parties = [b.split(" = ")[0].upper() for b in B]
+        self.pvars = pvars
+        # in the common subset every party variable may own inputs; most programs leave some party or input unused
+        in_parties = pvars if not common or r.random() < 0.5 else pvars[:max(1, len(pvars) - 1)]
+        for i in range(r.choice([2, 3, 4, 5] if common else [2, 3, 4])):
             v = self.fresh("i")
             t = r.choice(["SecretInteger", "PublicInteger"])
             form = r.choice(['Input(name="{n}", party={p})', 'Input("{n}", {p})', 'Input("{n}", party={p})'])
-            B.append(f"{v} = {t}({form.format(n=v, p=r.choice(['p1', 'p2']))})")
+            pv = r.choice(in_parties)
+            B.append(f"{v} = {t}({form.format(n=v, p=pv)})")
             self.env[v] = t
+            self.decl_inputs.append((v, pv.upper(), t))
         for _ in range(r.choice([3, 5, 8])):
             k = r.random()
             v = self.fresh()
@@ -176,11 +192,34 @@ class G:
             B.insert(r.choice(spots), bad)
         outs = []
         nadas = [v for v, t in self.env.items() if t in ("SecretInteger", "PublicInteger") and not v.startswith("p")]
-        for i in range(r.choice([1, 2])):
-            o = r.choice(nadas)
-            form = r.choice(['Output({v}, "{n}", {p})', 'Output(value={v}, name="{n}", party={p})', 'Output({v}, "{n}", party={p})'])
-            outs.append(form.format(v=o, n=f"o{i}", p=r.choice(["p1", "p2"])))
-        B.append(f"return [{', '.join(outs)}]")
+        if common:
+            # prefer late values so that most inputs are live, but not always
+            late = nadas[-3:]
+            forms = ['Output({v}, "{n}", {p})', 'Output({v}, name="{n}", party={p})', 'Output({v}, "{n}", party={p})']
+            for i in range(r.choice([1, 2, 3])):
+                o = r.choice(late if r.random() < 0.7 else nadas)
+                outs.append(r.choice(forms).format(v=o, n=f"o{i}", p=r.choice(self.pvars)))
+            style = r.random()
+            if style < 0.35 and len(outs) > 1:
+                # outputs built first, returned in another order
+                for i, o in enumerate(outs):
+                    B.append(f"out{i} = {o}")
+                order = list(range(len(outs)))
+                r.shuffle(order)
+                B.append(f"return [{', '.join(f'out{i}' for i in order)}]")
+            elif style < 0.45:
+                B.append("outs = []")
+                for o in outs:
+                    B.append(f"outs.append({o})")
+                B.append("return outs")
+            else:
+                B.append(f"return [{', '.join(outs)}]")
+        else:
+            for i in range(r.choice([1, 2])):
+                o = r.choice(nadas)
+                form = r.choice(['Output({v}, "{n}", {p})', 'Output(value={v}, name="{n}", party={p})', 'Output({v}, "{n}", party={p})'])
+                outs.append(form.format(v=o, n=f"o{i}", p=r.choice(["p1", "p2"])))
+            B.append(f"return [{', '.join(outs)}]")
         for b in B:
             for ln in b.split("\n"):
                 L.append("    " + ln if not ln.startswith("    ") or True else ln)
@@ -194,6 +233,18 @@ def programs(seed, n):
         g = G(rng)
         kind = "ill-typed" if i % 6 == 5 else ("literals" if i % 11 == 10 else "plain")
         out.append((kind, g.program(ill_typed=(kind == "ill-typed"), literals=(kind == "literals"))))
+    return out
+
+
+def common_programs(seed, n):
+    """C18: programs both class libraries accept, with what nada_main constructs: (kind, text, parties, inputs)"""
+    rng = random.Random(seed)
+    out = []
+    for i in range(n):
+        g = G(rng)
+        kind = "literals" if i % 7 == 6 else "plain"
+        text = g.program(literals=(kind == "literals"), common=True)
+        out.append((kind, text, list(g.decl_parties), list(g.decl_inputs)))
     return out
 
 
